@@ -54,6 +54,11 @@ func CloneInto(src, dst Model) {
 	}
 
 	aBytes, _ := json.Marshal(src)
+	// encoding/json decodes into what the destination already holds: it
+	// would add the keys of src to a map dst has instead of replacing it
+	if v := reflect.ValueOf(dst); v.Kind() == reflect.Ptr && !v.IsNil() {
+		v.Elem().Set(reflect.Zero(v.Elem().Type()))
+	}
 	_ = json.Unmarshal(aBytes, dst)
 }
 
